@@ -160,6 +160,17 @@ def r4(ctx):
     sent = core(sym(w, send.args[1]))
     ctx.require(has(sent, Call('count_words_whitespace', ANY, ANY)) or has(init_value(w, sent), Call('count_words_whitespace', ANY, ANY)), w, 'sent-counts',
                 'the value sent is the word count of the pulled line', 'sent: %s' % show_in(w, sent))
+    # the keys of the counts are the words as counted: a transformation of the keys AFTER counting (normalising each distinct word instead of
+    # the line) makes distinct keys equal, and collecting into a HashMap keeps only one of their counts
+    from analysis.seq import seq_of, ITEM as _ITEM
+    sv = init_value(w, sym(w, send.args[1]))
+    segs = seq_of(ctx.facts, w, sym(w, send.args[1]))
+    if segs is not None and len(segs) == 1 and segs[0].kind == 'each' and has(core(segs[0].src), Call('count_words_whitespace', ANY, ANY)):
+        e = core(segs[0].elem)
+        keep = e == _ITEM or (e[0] == 'agg' and e[1] == 'tuple' and len(e[3]) == 2 and core(e[3][0]) == ('field', _ITEM, 0) and core(e[3][1]) == ('field', _ITEM, 1))
+        ctx.require(keep, w, 'count-keys-unchanged', 'the (word, count) pairs are sent as counted (the key is only converted to an owned string)',
+                    'the counted words are transformed after counting (`%s`) and collected into a map: words that become equal overwrite each other and their '
+                    'counts are lost' % show_in(w, segs[0].elem)[:120], send.span)
     # reducer: fold closure adds counts
     # reducer (a fold closure over the receiver, or a loop over it in train_bpe itself): per key, counts are only added
     from rules.common import closures_in
